@@ -184,6 +184,12 @@ def check(shape, contact_bits, reverse, absent, window, sep, names, acc, sample=
                     break
             if not problems and len(set(types)) != len(types):
                 problems.append(('c18:site-type-not-unique', 'site types %r' % (types,)))
+            if not problems:
+                # the atom types that will be written: exactly one entry per site, pointing at that site
+                entries = system.gmx_topology_params.get('atomtypes', [])
+                entry_types = sorted(e.molecule.nodes[e.node].get('atype') for e in entries if e.node in e.molecule)
+                if entry_types != sorted(types) or any(e.sigma != 0 or e.epsilon != 0 for e in entries):
+                    problems.append(('c18:atomtype-entries', 'atom type entries %r for site types %r' % (entry_types, sorted(types))))
     if mol is not None and not problems:
         # ---- contacts
         gdist = residue_graph_distances(chains, xlink)
@@ -250,9 +256,26 @@ def check(shape, contact_bits, reverse, absent, window, sep, names, acc, sample=
         acc.violation(sig, desc, case)
 
 
+def run_sequence(item, acc):
+    shape_a, bits_a, shape_b, bits_b, sep_a, sep_b = item
+    before = len(acc.violations)
+    check(shape_a, bits_a, False, False, WINDOWS[0], sep_a, ('molecule', 'CA'), acc)
+    check(shape_b, bits_b, False, False, WINDOWS[0], sep_b, ('molname', 'VS'), acc)
+    check(shape_a, bits_a, False, False, WINDOWS[0], sep_a, ('molecule', 'CA'), acc)
+    for idx in range(before, len(acc.violations)):
+        sig, desc, case = acc.violations[idx]
+        acc.violations[idx] = (sig + '(call-sequence)', 'in a sequence of pipeline runs in one process: ' + desc,
+                               {'sequence': common.jsonable(item)})
+
+
 def work(task):
     common.bind_repo()
     acc = Acc()
+    if task[0] == 'sequence':
+        # the pipeline object is a module-level instance: several systems in one process, each judged on its own
+        for item in task[1]:
+            run_sequence(item, acc)
+        return acc
     shape, bit_lo, bit_hi, variants = task
     for bits in range(bit_lo, bit_hi):
         for reverse, absent, window, sep, names in variants:
@@ -302,11 +325,28 @@ def run(ctx):
     for part in common.pmap(work, tasks, chunksize=2):
         acc += part
     ctx.layer('contact-lists', acc)
+    seqs = []
+    for shape_a, shape_b in itertools.product([((3,), True, False, False, 'BB'), ((2, 1), False, False, 'same', 'BB')],
+                                              [((3,), False, True, True, 'BB'), ((2, 2), True, False, False, 'BB')]):
+        for bits_a, bits_b in ((0b111111, 0b101101), (0b001100, 0b111111), (0b110011, 0)):
+            for sep_a, sep_b in ((0, 2), (1, 0)):
+                seqs.append((shape_a, bits_a, shape_b, bits_b, sep_a, sep_b))
+    acc = Acc()
+    for part in common.pmap(work, [('sequence', [item]) for item in seqs], fresh=True):
+        acc += part
+    ctx.layer('call-sequences', acc)
 
 
 def replay(case):
     common.bind_repo()
     acc = Acc()
+    if 'sequence' in case:
+        it = case['sequence']
+
+        def shp(x):
+            return (tuple(x[0]), x[1], x[2], x[3], x[4])
+        run_sequence((shp(it[0]), it[1], shp(it[2]), it[3], it[4], it[5]), acc)
+        return [(s_, d) for s_, d, _ in acc.violations]
     s = case['shape']
     check((tuple(s[0]), s[1], s[2], s[3], s[4]), case['contacts'], case['reverse'], case['absent'], tuple(case['window']),
           case['sep'], tuple(case['names']), acc)
